@@ -3854,7 +3854,11 @@ class BoutMesh(Mesh):
 
             # Create poloidal coordinate which goes from 0 to 2pi in the core region
             theta = deepcopy(y)
-            myg = self.user_options.y_boundary_guards
+            if self.ny == self.ny_noguards:
+                # no y-boundaries (e.g. core-only grid), so no boundary cells in the grid
+                myg = 0
+            else:
+                myg = self.user_options.y_boundary_guards
             for t in [theta.centre, theta.xlow, theta.ylow]:
                 # Make zero of theta half a point before the start of the core region
                 t -= theta.ylow[0, numpy.newaxis, jyseps1_1 + myg + 1, numpy.newaxis]
@@ -3882,10 +3886,15 @@ class BoutMesh(Mesh):
             # member
             chi.ylow = 2.0 * numpy.pi * self.zShift.ylow / self.ShiftAngle.centre
             # set to NaN in divertor leg regions where chi is not valid
+            # (array indices include the y-boundary cells of each target, like theta above)
             for c in [chi.centre, chi.xlow, chi.ylow]:
-                c[:, : jyseps1_1 + 1] = float("nan")
-                c[:, jyseps2_1 + 1 : jyseps1_2 + 1] = float("nan")
-                c[:, jyseps2_2 + 1 :] = float("nan")
+                c[:, : jyseps1_1 + myg + 1] = float("nan")
+                if jyseps2_1 != jyseps1_2:
+                    # upper divertor legs, with two sets of boundary cells between them
+                    c[:, jyseps2_1 + myg + 1 : jyseps1_2 + 3 * myg + 1] = float("nan")
+                    c[:, jyseps2_2 + 3 * myg + 1 :] = float("nan")
+                else:
+                    c[:, jyseps2_2 + myg + 1 :] = float("nan")
             chi.attributes["bout_type"] = "Field2D"
             self.writeArray("chi", chi, f)
 
